@@ -26,11 +26,13 @@ CONSTANTS RAlphabet, RMaxLen
 VARIABLES txt, pos, br, out, phase
 rvars == <<txt, pos, br, out, phase>>
 
+RECURSIVE Flat(_)
+Flat(sq) == IF sq = << >> THEN "" ELSE Head(sq) \o Flat(Tail(sq))
 At(i) == IF i >= 1 /\ i <= Len(txt) THEN txt[i] ELSE ""
 
 (* output tokens *)
-C(p)  == [k |-> "c", p |-> p, d |-> ""]
-Mark(k, d) == [k |-> k, p |-> 0, d |-> d]           \* "la" <a>, "lz" </a>, "ia" <img alt=", "iz" " />; d = the destination as written in href / src
+C(p)  == [k |-> "c", p |-> p, d |-> "", tt |-> ""]
+Mark(k, d, tt) == [k |-> k, p |-> 0, d |-> d, tt |-> tt]           \* "la" <a>, "lz" </a>, "ia" <img alt=", "iz" " />; d = the destination as written in href / src
 
 (* a link label at q: "[", no bracket inside, "]"; its length or 0 *)
 LabelLen(q) ==
@@ -39,17 +41,19 @@ LabelLen(q) ==
          IF S = {} THEN 0
          ELSE LET j == CHOOSE x \in S : \A y \in S : x <= y IN IF txt[j] = "]" THEN j - q + 1 ELSE 0
 RECURSIVE Squeeze(_)
-Squeeze(sq) == IF sq = << >> THEN << >> ELSE IF Head(sq) = " " THEN Squeeze(Tail(sq)) ELSE <<Head(sq)>> \o Squeeze(Tail(sq))
+Squeeze(sq) == IF sq = << >> THEN << >> ELSE IF Head(sq) \in {" ", "\n"} THEN Squeeze(Tail(sq)) ELSE <<Head(sq)>> \o Squeeze(Tail(sq))
 (* the only defined label is "a", surrounded by any amount of whitespace (labels are compared trimmed, inner whitespace collapsed) *)
 Defined(lab) == Squeeze(lab) \in {<<"a">>, <<"A">>}              \* (and case-folded)
 HasBracket(sq) == \E i \in DOMAIN sq : sq[i] \in {"[", "]"}
 
+NA == {"a", "[", "]", "(", ")", "\n"}          \* (a configuration file cannot spell a line end)
 Top == br[Len(br)]
 Pop == SubSeq(br, 1, Len(br) - 1)
 
 RInit ==
     /\ txt \in {t \in UNION {[1..n -> RAlphabet] : n \in 1..RMaxLen} :
-                  t[1] # " " /\ t[Len(t)] # " " /\ (IOEnv.SHARD = "-" \/ t[1] = IOEnv.SHARD)}
+                  t[1] \notin {" ", "\n"} /\ t[Len(t)] \notin {" ", "\n"} /\ (\A i \in 1..(Len(t) - 1) : ~(t[i] = "\n" /\ t[i + 1] = "\n"))
+                  /\ (IOEnv.SHARD = "-" \/ t[1] = IOEnv.SHARD)}          \* (one paragraph: no blank line)
     /\ pos = 1 /\ br = << >> /\ out = << >> /\ phase = "scan"
 
 Literal == /\ out' = Append(out, C(pos)) /\ pos' = pos + 1
@@ -75,19 +79,38 @@ RefAt(t) ==
     ELSE [lab |-> << >>, eat |-> 0, ok |-> FALSE]
 (* an inline destination behind the closing bracket: "(", a run whose parentheses balance (the alphabets hold no space, so there is
    no title), ")".  Position of the closing parenthesis or 0. *)
-RECURSIVE DestEnd(_, _)
-DestEnd(i, depth) == IF i > Len(txt) THEN 0
-                     ELSE IF txt[i] = "(" THEN DestEnd(i + 1, depth + 1)
-                     ELSE IF txt[i] = ")" THEN (IF depth = 0 THEN i ELSE DestEnd(i + 1, depth - 1))
-                     ELSE DestEnd(i + 1, depth)
+Ws == {" ", "\n"}
+RECURSIVE SkipWs(_)
+SkipWs(i) == IF At(i) \in Ws THEN SkipWs(i + 1) ELSE i
+(* first position behind a plain destination that starts at i (it ends at whitespace or at the parenthesis that closes the link);
+   0 if its parentheses do not balance *)
+RECURSIVE DestRunEnd(_, _)
+DestRunEnd(i, depth) == IF i > Len(txt) \/ txt[i] \in Ws THEN (IF depth = 0 THEN i ELSE 0)
+                        ELSE IF txt[i] = "(" THEN DestRunEnd(i + 1, depth + 1)
+                        ELSE IF txt[i] = ")" THEN (IF depth = 0 THEN i ELSE DestRunEnd(i + 1, depth - 1))
+                        ELSE DestRunEnd(i + 1, depth)
+(* a title in parentheses that starts at i: position of its closing parenthesis (no parenthesis inside), or 0 *)
+ParenTitleEnd(i) == LET S == {j \in (i + 1)..Len(txt) : txt[j] \in {"(", ")"}} IN
+                    IF S = {} THEN 0 ELSE LET j == CHOOSE x \in S : \A y \in S : x <= y IN IF txt[j] = ")" THEN j ELSE 0
 RECURSIVE HrefEnc(_)
 HrefEnc(sq) == IF sq = << >> THEN "" ELSE (CASE Head(sq) = "[" -> "%5B" [] Head(sq) = "]" -> "%5D" [] OTHER -> Head(sq)) \o HrefEnc(Tail(sq))
+(* "(" whitespace* destination [whitespace+ title] whitespace* ")" behind the closing bracket at pos *)
+InlineAt ==
+    LET d0 == SkipWs(pos + 2)
+        d1 == DestRunEnd(d0, 0)
+        t0 == SkipWs(d1)
+        hasT == d1 > 0 /\ t0 > d1 /\ At(t0) = "("
+        tE == IF hasT THEN ParenTitleEnd(t0) ELSE 0
+        e == IF hasT THEN (IF tE > 0 THEN SkipWs(tE + 1) ELSE 0) ELSE t0 IN
+    IF At(pos + 1) = "(" /\ d1 > 0 /\ e > 0 /\ At(e) = ")"
+    THEN [ok |-> TRUE, end |-> e, href |-> HrefEnc(SubSeq(txt, d0, d1 - 1)), title |-> IF hasT THEN Flat(SubSeq(txt, t0 + 1, tE - 1)) ELSE ""]
+    ELSE [ok |-> FALSE, end |-> 0, href |-> "", title |-> ""]
 (* how the closing bracket at pos resolves with opener t: inline link first, then the reference forms *)
 Res(t) ==
-    LET e == IF At(pos + 1) = "(" THEN DestEnd(pos + 2, 0) ELSE 0
+    LET il == InlineAt
         r == RefAt(t) IN
-    IF e > 0 THEN [ok |-> TRUE, eat |-> e - pos, href |-> HrefEnc(SubSeq(txt, pos + 2, e - 1))]
-    ELSE [ok |-> r.ok /\ Defined(r.lab), eat |-> r.eat, href |-> "/u"]
+    IF il.ok THEN [ok |-> TRUE, eat |-> il.end - pos, href |-> il.href, title |-> il.title]
+    ELSE [ok |-> r.ok /\ Defined(r.lab), eat |-> r.eat, href |-> "/u", title |-> ""]
 ScanCloseNone ==
     /\ phase = "scan" /\ pos <= Len(txt) /\ txt[pos] = "]" /\ br = << >>
     /\ Literal /\ UNCHANGED <<txt, br, phase>>
@@ -98,8 +121,8 @@ ScanCloseMatch ==
     /\ phase = "scan" /\ pos <= Len(txt) /\ txt[pos] = "]" /\ br # << >> /\ Top.active
     /\ LET t == Top r == Res(t) IN
        /\ r.ok
-       /\ out' = SubSeq(out, 1, t.o - 1) \o <<Mark(IF t.img THEN "ia" ELSE "la", r.href)>>
-                 \o SubSeq(out, t.o + (IF t.img THEN 2 ELSE 1), Len(out)) \o <<Mark(IF t.img THEN "iz" ELSE "lz", "")>>
+       /\ out' = SubSeq(out, 1, t.o - 1) \o <<Mark(IF t.img THEN "ia" ELSE "la", r.href, r.title)>>
+                 \o SubSeq(out, t.o + (IF t.img THEN 2 ELSE 1), Len(out)) \o <<Mark(IF t.img THEN "iz" ELSE "lz", "", r.title)>>
        /\ pos' = pos + 1 + r.eat
        /\ br' = IF t.img THEN Pop ELSE [i \in 1..(Len(br) - 1) |-> IF br[i].img THEN br[i] ELSE [br[i] EXCEPT !.active = FALSE]]
     /\ UNCHANGED <<txt, phase>>
@@ -143,13 +166,11 @@ Render(o, imgDepth) ==
     IF o = << >> THEN ""
     ELSE LET h == Head(o) IN
          (CASE h.k = "c"  -> txt[h.p]
-            [] h.k = "la" -> IF imgDepth = 0 THEN "<a href=\"" \o h.d \o "\">" ELSE ""
+            [] h.k = "la" -> IF imgDepth = 0 THEN "<a href=\"" \o h.d \o "\"" \o (IF h.tt = "" THEN "" ELSE " title=\"" \o h.tt \o "\"") \o ">" ELSE ""
             [] h.k = "lz" -> IF imgDepth = 0 THEN "</a>" ELSE ""
             [] h.k = "ia" -> IF imgDepth = 0 THEN "<img src=\"" \o h.d \o "\" alt=\"" ELSE ""
-            [] OTHER      -> IF imgDepth = 1 THEN "\" />" ELSE "")
+            [] OTHER      -> IF imgDepth = 1 THEN "\"" \o (IF h.tt = "" THEN "" ELSE " title=\"" \o h.tt \o "\"") \o " />" ELSE "")
          \o Render(Tail(o), IF h.k = "ia" THEN imgDepth + 1 ELSE IF h.k = "iz" THEN imgDepth - 1 ELSE imgDepth)
-RECURSIVE Flat(_)
-Flat(sq) == IF sq = << >> THEN "" ELSE Head(sq) \o Flat(Tail(sq))
 
 (* a closing bracket followed by brackets that hold only spaces: the text (a link label needs a non-blank character, so a
    shortcut applies) and the reference procedure (the blank label is looked up and fails) disagree; not judged *)
